@@ -665,6 +665,13 @@ def explore(fn, max_paths=400, wall_budget_s=None):
                     v.inputs = EXP.concretise(model)
                     v.choices = list(EXP.choices)
                     EXP.violations.append(v)
+                elif r == "unknown":
+                    # neither a witness nor a refutation of this exception path: never silently dropped
+                    EXP.tot["ob_unknown"] += 1
+                    EXP.flags.add("obligation_unknown")
+                    EXP.events.append(("obligation_unknown", "exception path without witness: " + error[:160], None))
+                elif r == "unsat" and not core.CTX.physical:
+                    status = "abort"
             except BaseException:
                 pass
             if not getattr(e, "_symx_expected", False):
